@@ -353,12 +353,34 @@ func stopsTraversal(iff *ssa.If, negated bool, visitor *ssa.Parameter) bool {
 	ok := true
 	sawReturn := false
 	seen := map[*ssa.BasicBlock]bool{}
-	var walk func(b *ssa.BasicBlock)
-	walk = func(b *ssa.BasicBlock) {
+	// boolean flag variables set to a constant on the way (stop = true; break ... if stop { return }) are followed: a
+	// branch on a flag whose value is known on this path takes only that edge
+	var walk func(b, prev *ssa.BasicBlock, env map[ssa.Value]bool)
+	walk = func(b, prev *ssa.BasicBlock, env map[ssa.Value]bool) {
 		if seen[b] {
 			return
 		}
 		seen[b] = true
+		env2 := map[ssa.Value]bool{}
+		for k, v := range env {
+			env2[k] = v
+		}
+		for _, in := range b.Instrs {
+			phi, isPhi := in.(*ssa.Phi)
+			if !isPhi {
+				break
+			}
+			delete(env2, phi)
+			for i, p := range b.Preds {
+				if p == prev && i < len(phi.Edges) {
+					if c, isC := core.ConstBool(phi.Edges[i]); isC {
+						env2[phi] = c
+					} else if v, known := env[phi.Edges[i]]; known {
+						env2[phi] = v
+					}
+				}
+			}
+		}
 		for _, in := range b.Instrs {
 			if c, isC := in.(ssa.CallInstruction); isC && c.Common().Value == ssa.Value(visitor) {
 				ok = false
@@ -367,11 +389,26 @@ func stopsTraversal(iff *ssa.If, negated bool, visitor *ssa.Parameter) bool {
 				sawReturn = true
 			}
 		}
+		if i2, isIf := b.Instrs[len(b.Instrs)-1].(*ssa.If); isIf {
+			cond := i2.Cond
+			neg := false
+			if u, isU := cond.(*ssa.UnOp); isU && u.Op == token.NOT {
+				cond, neg = u.X, true
+			}
+			if v, known := env2[cond]; known {
+				if v != neg {
+					walk(b.Succs[0], b, env2)
+				} else {
+					walk(b.Succs[1], b, env2)
+				}
+				return
+			}
+		}
 		for _, s := range b.Succs {
-			walk(s)
+			walk(s, b, env2)
 		}
 	}
-	walk(stop)
+	walk(stop, iff.Block(), map[ssa.Value]bool{})
 	return ok && sawReturn
 }
 
@@ -744,8 +781,43 @@ func c07Q6(r *Run, rep *core.Report, mm *core.MapModel) {
 		}
 		return false
 	}
+	// visitorDerived: the visitor's verdict itself, its negation, a comparison of it with a boolean constant, or a flag
+	// variable that only ever holds constants and such verdicts (stop := false; ...; stop = !f(k, v))
+	var visitorDerived func(v ssa.Value, d int) bool
+	visitorDerived = func(v ssa.Value, d int) bool {
+		if d > 5 {
+			return false
+		}
+		if isVisitorCall(v) {
+			return true
+		}
+		switch x := v.(type) {
+		case *ssa.UnOp:
+			return x.Op == token.NOT && visitorDerived(x.X, d+1)
+		case *ssa.BinOp:
+			if x.Op != token.EQL && x.Op != token.NEQ {
+				return false
+			}
+			_, cx := x.X.(*ssa.Const)
+			_, cy := x.Y.(*ssa.Const)
+			return cx && visitorDerived(x.Y, d+1) || cy && visitorDerived(x.X, d+1)
+		case *ssa.Phi:
+			n := 0
+			for _, e := range x.Edges {
+				if _, isC := e.(*ssa.Const); isC || e == ssa.Value(x) {
+					continue
+				}
+				if !visitorDerived(e, d+1) {
+					return false
+				}
+				n++
+			}
+			return n > 0
+		}
+		return false
+	}
 	okCond := func(cond ssa.Value) bool {
-		if isVisitorCall(cond) {
+		if visitorDerived(cond, 0) {
 			return true
 		}
 		v := cond
